@@ -294,3 +294,81 @@ pub fn pair(k: usize) -> (String, String, Vec<String>, usize) {
         (STMT_FAULTS[j].to_string(), "statement".to_string(), vec![STMT_FAULTS[j].to_string()], k)
     }
 }
+
+// ------------------------------------------------------------------------------------------------
+// Jump x scope matrix: a label belongs to the main module or to the one subprogram it is written in.
+// ------------------------------------------------------------------------------------------------
+
+pub const JUMP_KINDS: [&str; 2] = ["GOTO", "GOSUB"];
+pub const JUMP_SOURCES: [&str; 4] = ["main-before-subprograms", "main-after-subprograms", "sub", "function"];
+pub const JUMP_TARGETS: [(&str, &str); 5] = [("LM1", "main-before-subprograms"), ("LM2", "main-after-subprograms"), ("LS1", "sub"), ("LF1", "function"), ("LO1", "other-sub")];
+
+pub struct JumpCase {
+    pub text: String,
+    pub row: u32,
+    pub same_scope: bool,
+    pub label: String,
+}
+
+/// A program with one jump statement in the given source scope to a label written in the given target scope.
+/// Every label is followed by a guard that ends the program after a few visits, so accepted programs terminate.
+pub fn jump_case(kind: usize, source: usize, target: usize) -> JumpCase {
+    let stmt = format!("{} {}", JUMP_KINDS[kind], JUMP_TARGETS[target].0);
+    let mut lines: Vec<String> = vec!["DIM SHARED ZG%".into(), "PRINT \"m1\"".into()];
+    let mut row = 0u32;
+    let guard = |lines: &mut Vec<String>, label: &str, indent: &str| {
+        lines.push(format!("{}:", label));
+        lines.push(format!("{}ZG% = ZG% + 1", indent));
+        lines.push(format!("{}IF ZG% > 3 THEN END", indent));
+        lines.push(format!("{}PRINT \"{}\"", indent, label));
+    };
+    if source == 0 {
+        lines.push(stmt.clone());
+        row = lines.len() as u32;
+    }
+    guard(&mut lines, "LM1", "");
+    lines.push("CtxS".into());
+    lines.push("ZN# = CtxF%(1)".into());
+    lines.push("Other".into());
+    lines.push("SUB CtxS".into());
+    lines.push("  PRINT \"s1\"".into());
+    if source == 2 {
+        lines.push(format!("  {}", stmt));
+        row = lines.len() as u32;
+    }
+    guard(&mut lines, "LS1", "  ");
+    lines.push("END SUB".into());
+    lines.push("FUNCTION CtxF% (P%)".into());
+    lines.push("  PRINT \"f1\"".into());
+    if source == 3 {
+        lines.push(format!("  {}", stmt));
+        row = lines.len() as u32;
+    }
+    guard(&mut lines, "LF1", "  ");
+    lines.push("  CtxF% = 1".into());
+    lines.push("END FUNCTION".into());
+    lines.push("SUB Other".into());
+    guard(&mut lines, "LO1", "  ");
+    lines.push("END SUB".into());
+    lines.push("PRINT \"m2\"".into());
+    if source == 1 {
+        lines.push(stmt.clone());
+        row = lines.len() as u32;
+    }
+    guard(&mut lines, "LM2", "");
+    lines.push("END".into());
+    let src_scope = match source {
+        0 | 1 => "main",
+        2 => "sub",
+        _ => "function",
+    };
+    let tgt_scope = match target {
+        0 | 1 => "main",
+        2 => "sub",
+        3 => "function",
+        _ => "other-sub",
+    };
+    let mut text = lines.join("\n");
+    text.push('\n');
+    JumpCase { text, row, same_scope: src_scope == tgt_scope, label: format!("{} from {} to {} ({})", JUMP_KINDS[kind], JUMP_SOURCES[source], JUMP_TARGETS[target].0, JUMP_TARGETS[target].1) }
+}
